@@ -177,8 +177,24 @@ package network
 //@   loop 2 invariant levelsOK(d) && isnew(d.privGraph) && nodesOK(d) && edgesOK(d) && (forall n string :: has(d.PrivilegeLevels, n) ==> has(d.privGraph, n)) && (forall a string :: {has(d.privGraph, a)} has(d.privGraph, a) ==> isnew(get(d.privGraph, a)) && alive(get(d.privGraph, a)))
 //@   loop 3 invariant levelsOK(d) && isnew(d.privGraph) && nodesOK(d) && edgesOK(d) && (forall n string :: has(d.PrivilegeLevels, n) ==> has(d.privGraph, n)) && (forall a string :: {has(d.privGraph, a)} has(d.privGraph, a) ==> isnew(get(d.privGraph, a)) && alive(get(d.privGraph, a)))
 //@   loop 3 invariant has(d.privGraph, higherPrivLevel) && privLevelList == get(d.privGraph, higherPrivLevel)
+// the prompt the channel waits for is the alternation of the patterns of exactly the configured levels
+//@ func (*Driver).buildJoinedPromptPattern [C04 C17]
+//@   loop 1 invariant #every-alternative-collected-is-the-pattern-of-a-level forall j int :: 0 <= j && j < len(patterns) ==> (exists n string :: has(d.PrivilegeLevels, n) && get(d.PrivilegeLevels, n).Pattern == patterns[j])
+//@   loop 1 invariant #the-pattern-of-every-level-seen-is-collected forall n string :: {visited(n)} visited(n) ==> memS(patterns, get(d.PrivilegeLevels, n).Pattern)
+//@   at call! Join#1 assert #the-alternatives-are-the-patterns-of-all-levels-joined-by-a-bar arg0 === patterns && arg1 == "|" && (forall n string :: {has(d.PrivilegeLevels, n)} has(d.PrivilegeLevels, n) ==> memS(patterns, get(d.PrivilegeLevels, n).Pattern))
+//@   at call! MustCompile#1 assert #the-joined-alternatives-are-what-is-compiled arg0 == joinS(patterns, "|")
+//@   at return assert #the-channel-waits-for-the-compiled-alternation d.Driver.Channel.PromptPattern == compiled(joinS(patterns, "|"))
+// the levels are the user's (or a definition file's): their well-formedness is an assumed precondition here, the
+// constructor's callers are not asked for it (C17 establishes it for the shipped files)
+//@ ghost nGraphs int local
+//@ ghost nPatterns int local
 //@ func (*Driver).UpdatePrivileges
-//@   noverify
+//@   assumed requires levelsOK(d)
+//@   after call buildPrivGraph#1 set nGraphs = nGraphs + 1
+//@   after call buildJoinedPromptPattern#1 set nPatterns = nPatterns + 1
+//@   at return assert [C04 C17] #both-are-rebuilt-on-every-call nGraphs == old(nGraphs) + 1 && nPatterns == old(nPatterns) + 1
+//@   at call! buildPrivGraph#1 assert [C04 C17] #the-privilege-graph-is-rebuilt-for-this-driver recv == d
+//@   at call! buildJoinedPromptPattern#1 assert [C04 C17] #and-so-is-the-prompt-pattern-of-its-channel recv == d
 // optBase: ghost - the option log as the generic constructor left it
 //@ ghost optBase []int
 //@ func NewDriver [C19 C04]
